@@ -304,6 +304,16 @@ def run_property(prop: str, harness_name: str, tier: str, seed: int, jobs: int, 
             else:
                 done[idx] = payload
                 running.pop(pid, None)
+                if os.environ.get("VF_STOP_ON_REFUTED") and payload.get("verdict") == "refuted" and items[idx].get("mode", ("all",))[0] != "only":
+                    # (used by the seeded-change regression only: the first counterexample is enough)
+                    for pid2, p2 in procs.items():
+                        if p2.is_alive():
+                            p2.terminate()
+                    for i in range(len(items)):
+                        if i not in done:
+                            done[i] = {"item": items[i], "ob": items[i]["ob"], "verdict": "unknown", "message": "not run: stopped at the first counterexample",
+                                       "paths": 0, "z3_queries": 0, "solver_s": 0.0, "wall_s": 0.0, "oracle_hits": 0, "nontrivial": 0, "cex": None}
+                    break
         # hard timeouts / dead workers
         for pid, (idx, st) in list(running.items()):
             hard = items[idx].get("timeout", 60.0) * 2.5 + 60.0
